@@ -70,7 +70,9 @@ func c12Hdr(owner string, t uint16) mdns.RR_Header {
 
 func c12Shapes() []c12RR {
 	var out []c12RR
-	add := func(name string, mk func(owner, domain string, rng *rand.Rand) mdns.RR) { out = append(out, c12RR{name, mk}) }
+	add := func(name string, mk func(owner, domain string, rng *rand.Rand) mdns.RR) {
+		out = append(out, c12RR{name, mk})
+	}
 	for _, n := range []int{0, 1, 2, 3, 40} {
 		n := n
 		add(fmt.Sprintf("NULL/%d", n), func(o, d string, r *rand.Rand) mdns.RR {
@@ -94,7 +96,9 @@ func c12Shapes() []c12RR {
 	for _, tg := range targets {
 		tg := tg
 		t := func(d string) string { return strings.Replace(tg, "$D", d, -1) }
-		add("CNAME/"+tg, func(o, d string, r *rand.Rand) mdns.RR { return &mdns.CNAME{Hdr: c12Hdr(o, mdns.TypeCNAME), Target: t(d)} })
+		add("CNAME/"+tg, func(o, d string, r *rand.Rand) mdns.RR {
+			return &mdns.CNAME{Hdr: c12Hdr(o, mdns.TypeCNAME), Target: t(d)}
+		})
 		add("MX/"+tg, func(o, d string, r *rand.Rand) mdns.RR {
 			return &mdns.MX{Hdr: c12Hdr(o, mdns.TypeMX), Preference: uint16(r.Intn(3) * 10), Mx: t(d)}
 		})
@@ -104,7 +108,9 @@ func c12Shapes() []c12RR {
 		add("NS/"+tg, func(o, d string, r *rand.Rand) mdns.RR { return &mdns.NS{Hdr: c12Hdr(o, mdns.TypeNS), Ns: t(d)} })
 	}
 	add("A/0", func(o, d string, r *rand.Rand) mdns.RR { return &mdns.A{Hdr: c12Hdr(o, mdns.TypeA)} })
-	add("A/4", func(o, d string, r *rand.Rand) mdns.RR { return &mdns.A{Hdr: c12Hdr(o, mdns.TypeA), A: net.IP(c12RandBytes(r, 4, ""))} })
+	add("A/4", func(o, d string, r *rand.Rand) mdns.RR {
+		return &mdns.A{Hdr: c12Hdr(o, mdns.TypeA), A: net.IP(c12RandBytes(r, 4, ""))}
+	})
 	add("AAAA/0", func(o, d string, r *rand.Rand) mdns.RR { return &mdns.AAAA{Hdr: c12Hdr(o, mdns.TypeAAAA)} })
 	add("AAAA/16", func(o, d string, r *rand.Rand) mdns.RR {
 		return &mdns.AAAA{Hdr: c12Hdr(o, mdns.TypeAAAA), AAAA: net.IP(c12RandBytes(r, 16, ""))}
